@@ -639,6 +639,9 @@ class C11(core.PropertyCheck):
             files["source/includes/steps-setup.yaml"] = {"text": self.gen_yaml(rng, "steps")}
         if rng.random() < 0.8:
             files["source/includes/extracts-notes.yaml"] = {"text": self.gen_yaml(rng, "extracts")}
+        if rng.random() < 0.25:
+            # a YAML file that cannot be parsed generates no page: its diagnostics belong to no page ("orphan")
+            files["source/includes/" + rng.choice(["extracts-bad.yaml", "steps-bad.yaml"])] = {"text": rng.choice(["title: foo\n  bad: [\n", "- just\n- a list\n", "ref: [unclosed\n"])}
         for c in self.CODE:
             if c != "code/noex.py" and rng.random() < 0.8:
                 files["source/" + c] = {"text": f"print({rng.randint(0, 99)})\n"}
